@@ -316,7 +316,10 @@ Qed.
 (* ... and so are the domains: a well-formed argument set is accepted by
    every function *)
 Example C16_good_inputs_accepted :
-  all_ok (pin_calls good_pin) = true /\ all_ok (pan_calls good_pan) = true /\
+  all_ok (pin_calls good_pin) = true /\
+  (* (the seventh call deciphers an arbitrary block: its PIN field does not decode) *)
+  map is_ok (pan_calls good_pan) =
+    [true; true; true; true; true; true; false; true; true; true; true] /\
   all_ok (ibm_calls chr_F 0 16) = true /\
   (* an empty window is accepted at any offset: len(pan[o:o+0]) = 0 *)
   all_ok (ibm_calls chr_F 40 0) = true /\
